@@ -602,6 +602,11 @@ func (x *ckExec) step(op ckOp) {
 		if p, _ := catch(func() { data, werr = x.c.Data() }); p {
 			werr = errors.New("panic")
 		}
+		// the caller keeps the bytes while it serialises another chunk (a sender preparing several chunk packets): what
+		// Data returned is the caller's
+		if x.rng.Intn(2) == 0 {
+			catch(func() { x.ckDest().Data() })
+		}
 		d := x.ckDest()
 		if werr == nil {
 			if p, _ := catch(func() { rerr = d.PutData(data) }); p {
